@@ -201,6 +201,47 @@ pub fn run(ctx: &Ctx) -> i32 {
             json!({"kind": "parse-pair", "first": inputs[i], "second": inputs[j]}),
         ));
     }
+    // triples over a smaller set: state that needs two earlier calls
+    {
+        let small: Vec<String> = [0usize, 1, 2, 8, 9, 14, 17, 19].iter().map(|i| inputs[*i].clone()).collect();
+        let alone: Vec<String> = small
+            .iter()
+            .map(|s| {
+                let s = s.clone();
+                std::thread::Builder::new().stack_size(256 << 20).spawn(move || format!("{:?}", crate::subject::parse_spec(&s))).unwrap().join().unwrap_or_default()
+            })
+            .collect();
+        for a in 0..small.len() {
+            for b in 0..small.len() {
+                let (sa, sb, all) = (small[a].clone(), small[b].clone(), small.clone());
+                let res: Vec<String> = std::thread::Builder::new()
+                    .stack_size(256 << 20)
+                    .spawn(move || {
+                        all.iter()
+                            .map(|c| {
+                                let _ = crate::subject::parse_spec(&sa);
+                                let _ = crate::subject::parse_spec(&sb);
+                                format!("{:?}", crate::subject::parse_spec(c))
+                            })
+                            .collect()
+                    })
+                    .unwrap()
+                    .join()
+                    .unwrap_or_default();
+                acc.states += small.len() as u64;
+                acc.transitions += 3 * small.len() as u64;
+                for (c, r) in res.iter().enumerate() {
+                    if r != &alone[c] {
+                        acc.violate(Violation::new(
+                            "C15:parse-result-depends-on-history",
+                            format!("parse({:?}) after parse({:?}) and parse({:?}) on the same thread gives {}; alone it gives {}", short(&small[c]), short(&small[a]), short(&small[b]), short(r), short(&alone[c])),
+                            json!({"kind": "parse-triple", "first": small[a], "second": small[b], "third": small[c]}),
+                        ));
+                    }
+                }
+            }
+        }
+    }
     acc.states += (inputs.len() * inputs.len()) as u64;
     acc.transitions += (inputs.len() * inputs.len() * 2) as u64;
     // repeated refusals must not wear anything out: 200 over-deep inputs, then a shallow one
@@ -278,6 +319,39 @@ pub fn run(ctx: &Ctx) -> i32 {
             }
         }
     }
+    // the process environment is not an input either: the same dump under other environment
+    // variables and from other working directories
+    let envs: Vec<(&str, &str)> = vec![
+        ("RUST_LOG", "trace"), ("RUST_BACKTRACE", "1"), ("LANG", "fr_FR.UTF-8"), ("LC_ALL", "C"), ("LC_NUMERIC", "de_DE.UTF-8"), ("TZ", "Asia/Tokyo"),
+        ("HOME", "/nonexistent"), ("USER", "nobody"), ("TMPDIR", "/nonexistent"), ("PWD", "/"), ("COLUMNS", "10"), ("NO_COLOR", "1"), ("TERM", "dumb"),
+        ("POSIXLY_CORRECT", "1"), ("FIND_BLOCK_SIZE", "1024"), ("BLOCK_SIZE", "1024"), ("LIPE_DEBUG", "1"), ("LIPE_THREADS", "3"), ("LIPE_FIND_DEBUG", "1"),
+        ("DEBUG", "1"), ("CI", "true"), ("SOURCE_DATE_EPOCH", "1"), ("PATH", "/nonexistent"),
+    ];
+    let mut env_dumps: Vec<(String, String)> = vec![];
+    for (k, v) in &envs {
+        if let Ok(o) = std::process::Command::new(exe("release")).args(["child", "c15"]).env(k, v).output() {
+            env_dumps.push((format!("{k}={v}"), String::from_utf8_lossy(&o.stdout).to_string()));
+        }
+    }
+    for dir in ["/", "/usr", "/proc/self"] {
+        if let Ok(o) = std::process::Command::new(exe("release")).args(["child", "c15"]).current_dir(dir).output() {
+            env_dumps.push((format!("cwd={dir}"), String::from_utf8_lossy(&o.stdout).to_string()));
+        }
+    }
+    if let Ok(o) = std::process::Command::new(exe("release")).args(["child", "c15"]).env_clear().output() {
+        env_dumps.push(("empty environment".into(), String::from_utf8_lossy(&o.stdout).to_string()));
+    }
+    for (what, d) in &env_dumps {
+        acc.states += 1;
+        acc.transitions += 1;
+        if !dumps.is_empty() && d != &dumps[0] {
+            acc.violate(Violation::new(
+                "C15:result-depends-on-the-process-environment",
+                format!("with {what} the five expressions parse/compile differently than in the plain environment"),
+                json!({"kind": "environment", "setting": what}),
+            ));
+        }
+    }
     for (k, d) in dumps.iter().enumerate() {
         acc.states += 1;
         acc.transitions += 1;
@@ -333,7 +407,7 @@ fn fin(nproc: usize, maxlen: usize) -> Finish {
     Finish {
         level: "model_checking",
         exhaustive: true,
-        rule: "state = history of parse+compile calls in one process over five resource-rich expressions (two with time tests), a compile that fails after a time test was translated, and waits of 1.1 s (so the clock second changes between calls); every call's parse result, program (embedded clock second replaced) and destination table must equal the first result ever obtained for that expression; parsing text j right after text i on a fresh thread must answer as parsing j alone (23 texts: near-identical spellings, nestings of 8..140, long formats, errors; all ordered pairs), also after 200 refused over-deep inputs; compiling expressions that name files must not depend on whether those files (or symbolic links to them) exist; every embedded second must lie within the clock readings taken around its compile call, also for a call issued after the process has run for more than 2 s; the same five expressions are evaluated in fresh processes and the outputs compared byte-wise; distinct = distinct (expression, program) pairs".into(),
+        rule: "state = history of parse+compile calls in one process over five resource-rich expressions (two with time tests), a compile that fails after a time test was translated, and waits of 1.1 s (so the clock second changes between calls); every call's parse result, program (embedded clock second replaced) and destination table must equal the first result ever obtained for that expression; the same five expressions evaluated in fresh processes under 23 changed environment variables, an empty environment and three other working directories must give the same bytes; parsing text j right after text i on a fresh thread must answer as parsing j alone, also after two earlier texts over an 8-text subset (23 texts: near-identical spellings, nestings of 8..140, long formats, errors; all ordered pairs), also after 200 refused over-deep inputs; compiling expressions that name files must not depend on whether those files (or symbolic links to them) exist; every embedded second must lie within the clock readings taken around its compile call, also for a call issued after the process has run for more than 2 s; the same five expressions are evaluated in fresh processes and the outputs compared byte-wise; distinct = distinct (expression, program) pairs".into(),
         bound: format!("every call history of length 1..{maxlen} over 5 expressions and the failing compile (exhaustive); every history x·wait·y with x in {{time expression, failing compile}}, y a time expression (thorough: all such of length 4-5 with one or two waits); {nproc} fresh processes (the hash-seed dimension cannot be enumerated: it is covered by repetition, see DESIGN.md §1.2)"),
         assumptions: vec!["std HashMap seeds are per process/instance and not injectable: their dimension is sampled by fresh processes and fresh map instances, not enumerated".into()],
         extra: serde_json::Map::new(),
